@@ -249,6 +249,17 @@ fn main() {
             // retry <policy> <err variant> <db variant> <idem 0/1> <req consistency> <f0> <f1> <f2>
             //       <received> <required> <alive> <numfailures> <data_present 0/1> <write type> <err consistency>
             "retry" => retry_replay(&a),
+            // keyspace <scalar value>*: validate the name made of these characters
+            "keyspace" => {
+                let name: String = (1..a.len()).map(|i| char::from_u32(num(i) as u32).unwrap_or('?')).collect();
+                match vh::verify_keyspace_name(name.clone(), false) {
+                    Ok((kept, _)) => if kept == name { "Ok".to_string() } else { "Ok-but-altered".to_string() },
+                    Err(scylla::errors::BadKeyspaceName::Empty) => "Err Empty".to_string(),
+                    Err(scylla::errors::BadKeyspaceName::TooLong(_, n)) => format!("Err TooLong {}", n),
+                    Err(scylla::errors::BadKeyspaceName::IllegalCharacter(_, c)) => format!("Err IllegalCharacter {}", c as u32),
+                    Err(_) => "Err other".to_string(),
+                }
+            }
             "token_new" => Token::new(num(1) as i64).value().to_string(),
             _ => "UNKNOWN".to_string(),
         };
